@@ -158,7 +158,8 @@ def permute_branches(prog, tape):
 
 
 _SHARED_BACKEND = []
-_KEPT = []  # results of the first runs of this process, read again after every later run
+_KEPT = []  # results of runs 1, 2 and 6 of this process, read again 1, 2, 4, 8, 16, 32 runs later
+_RUNS_IN_PROCESS = [0]
 
 
 def shared_backend():
@@ -980,7 +981,13 @@ def execute(plan):
         out.append([(int(r.as_int), r.subcircuit.index) for r in res_.readouts])
         return out
 
+    _RUNS_IN_PROCESS[0] += 1
     for kept in _KEPT:
+        kept["age"] += 1
+        if kept["age"] & (kept["age"] - 1):
+            # read again after 1, 2, 4, 8, 16, 32 later runs only: reading is a use, and a
+            # result that is used all the time is never the least recently used anything
+            continue
         try:
             now = views_of(kept["res"])
         except Exception as e_:  # noqa
@@ -989,12 +996,10 @@ def execute(plan):
             for prop_ in ("C08", "C15"):
                 viol.add(prop_, "earlier_result_unchanged_by_later_runs", "mismatch", "", "a result returned %d runs ago reads differently now" % kept["age"])
             kept["views"] = now
-        kept["age"] += 1
-    if _KEPT:
         probe("earlier_result_read_again")
-    if okA and len(_KEPT) < 2:
+    if okA and len(_KEPT) < 3 and _RUNS_IN_PROCESS[0] in (1, 2, 6):
         try:
-            _KEPT.append({"res": results["A"]["outcome"]["value"], "views": views_of(results["A"]["outcome"]["value"]), "age": 1})
+            _KEPT.append({"res": results["A"]["outcome"]["value"], "views": views_of(results["A"]["outcome"]["value"]), "age": 0})
         except Exception:
             pass
 
